@@ -345,10 +345,16 @@ class History:
         return ["bad-op", "bad-op"]
 
 
-def run_history(ops):
-    """execute the ops in this process; returns [[model_format, rich_format], ...]"""
+def run_history(ops, lims=None):
+    """execute the ops in this process; returns [[model_format, rich_format], ...]; `lims` (a list) receives the
+    process-wide recursion limit after every op"""
     h = History()
-    return [h.step(op) for op in ops]
+    out = []
+    for op in ops:
+        out.append(h.step(op))
+        if lims is not None:
+            lims.append(sys.getrecursionlimit())
+    return out
 
 
 def run_threads(threads, order, timeout=60.0):
@@ -396,7 +402,8 @@ def run_threads(threads, order, timeout=60.0):
 def run_job(job):
     if "threads" in job:
         return {"id": job["id"], "tobs": run_threads(job["threads"], job["order"])}
-    return {"id": job["id"], "obs": run_history(job["ops"])}
+    lims = [sys.getrecursionlimit()]      # [before the history, after op 0, after op 1, ...]
+    return {"id": job["id"], "obs": run_history(job["ops"], lims), "lim": lims}
 
 
 def _child(job, wfd):
